@@ -172,10 +172,65 @@ async fn scenario(mon: &Monitor, rng: &mut Rng, realtime: bool) {
     if let Some(s) = stop_node {
         tokio::time::sleep(stop_at).await;
         let peers = w.nodes[s].mgr.verif_dht_peers().await.len();
+        // strangers keep dialling the node while it stops: connection events must not be able to
+        // wedge the shutdown, whichever instant of stop() they land in (the leave phase takes about
+        // one round trip per peer; dials are spread over and beyond it, a microsecond apart at the end)
+        if rng.chance(0.7) {
+            let dials = rng.urange(4, 40);
+            let span_us = (peers as u64 + 1) * rng.range(200, 6000);
+            for d in 0..dials {
+                let w2 = w.clone();
+                let tid = rng.arr32();
+                let addr = sim_addr(100 + d);
+                let at = Duration::from_micros(if rng.chance(0.5) { rng.range(0, span_us) } else { rng.range(0, 400) });
+                tokio::spawn(async move {
+                    tokio::time::sleep(at).await;
+                    let _rx = w2.hub.register_puppet(tid, addr);
+                    // what an inbound connection does on the stopping node: the accept path
+                    w2.nodes[s].transport.verif_accept(&hex::encode(tid), addr).await;
+                });
+            }
+        }
         let sb = (REQ_TO * (peers as u32 + 1)).mul_f64(1.5 * slack) + Duration::from_secs(1);
         let t0 = w.hub.now();
-        let r = tokio::time::timeout(sb, w.nodes[s].mgr.stop()).await;
+        // shadowed stop: an inbound connection is accepted immediately before (a seeded subset of)
+        // the resumptions of stop() itself, so that a connection event is pending, not yet seen by
+        // the node's event task, at every await point of stop() - the schedule in which the accept
+        // loop is polled just ahead of the stopping task
+        let shadow_p = *rng.pick(&[0.0, 0.0, 0.25, 0.6, 1.0]);
+        let mut shadow_rng = Rng::new(rng.next_u64());
+        let mut stop_fut = Box::pin(w.nodes[s].mgr.stop());
+        let mut pend: Option<std::pin::Pin<Box<dyn std::future::Future<Output = ()>>>> = None;
+        let mut puppets = Vec::new();
+        let mut shadow_dials = 0u64;
+        let wq = w.clone();
+        let shadowed = std::future::poll_fn(|cx| {
+            use std::future::Future;
+            if let Some(f) = pend.as_mut() {
+                if f.as_mut().poll(cx).is_ready() {
+                    pend = None;
+                }
+            }
+            if pend.is_none() && shadow_dials < 64 && shadow_rng.chance(shadow_p) {
+                let tid = shadow_rng.arr32();
+                let addr = sim_addr(1000 + shadow_dials as usize);
+                puppets.push(wq.hub.register_puppet(tid, addr));
+                let tr = wq.nodes[s].transport.clone();
+                let mut f: std::pin::Pin<Box<dyn std::future::Future<Output = ()>>> = Box::pin(async move { tr.verif_accept(&hex::encode(tid), addr).await });
+                if f.as_mut().poll(cx).is_pending() {
+                    pend = Some(f);
+                }
+                shadow_dials += 1;
+            }
+            stop_fut.as_mut().poll(cx)
+        });
+        let r = tokio::time::timeout(sb, shadowed).await;
         let t1 = w.hub.now();
+        mon.count("stop.shadow_dials", shadow_dials);
+        if shadow_dials > 0 {
+            mon.count("stop.with_shadow_dials", 1);
+        }
+        drop(pend);
         stop_info = Some((s, t0, r.is_ok().then_some(t1), peers, sb));
     }
 
